@@ -186,6 +186,82 @@ func init() {
 		},
 	})
 	eng.Register(&eng.Scenario{
+		Name: "refcount-invalidate-then-release", Props: []string{"C10"}, MustFinish: true, ObsNames: stdObs,
+		Doc:   "RefCount.ResolveWithReleased: the value is invalidated (released() has returned) while the caller still holds it, and the caller calls its release function right afterwards (every interleaving with the notification goroutine): the released callback fires exactly once all the same; without the invalidation it never fires",
+		Quick: eng.Bounds{PB: 2}, Thorough: eng.Bounds{PB: 4},
+		Body: func() {
+			e := newRC2(bg, vsched.Choose(2) == 1, func(int) int { return mValue })
+			inval := vsched.Choose(2) == 1
+			v, rel, err := e.rc.ResolveWithReleased(bg, func() { vsched.CtrAdd(xRelCb, 1) })
+			if err != nil || v != valOf(1) {
+				fail("C10.wrong-error", "ResolveWithReleased returned (%d,%v)", v, err)
+				return
+			}
+			if inval {
+				if f, ok := vsched.GetCell(50).(func()); ok {
+					vsched.CtrSet(rcInv0+1, 1)
+					f()
+				}
+			}
+			// released() may hand the invalidation to another goroutine when the container is busy: it has
+			// definitely taken effect while the value was still held if the value's release function has run
+			took := vsched.Ctr(rcRel0+1) != 0
+			rel()
+			vsched.Settle()
+			n := vsched.Ctr(xRelCb)
+			switch {
+			case !inval && n != 0:
+				fail("C10.released-cb-count", "the value was never invalidated but the released callback fired %d time(s)", n)
+			case took && n != 1:
+				fail("C10.released-cb-count", "the value was invalidated (and released) while the caller still held it; the caller released right afterwards: the released callback fired %d time(s), want 1", n)
+			case n > 1:
+				fail("C10.released-cb-count", "the released callback fired %d times", n)
+			}
+			e.setContext(nil)
+			vsched.Settle()
+			e.finalRelease()
+		},
+	})
+	eng.Register(&eng.Scenario{
+		Name: "refcount-failed-then-retry", Props: []string{"C10", "C09"}, MustFinish: true, ObsNames: stdObs,
+		Doc:   "RefCount (keep-unreferenced f/t) whose first resolver call fails and whose second succeeds: consumer A (Wait / Resolve / Access, choice) gets the resolver's error and leaves; consumer B then gets a value resolved by a new call - a failed result is not kept for later consumers, whatever keep-unreferenced says",
+		Quick: eng.Bounds{PB: 2}, Thorough: eng.Bounds{PB: 3},
+		Body: func() {
+			e := newRC2(bg, vsched.Choose(2) == 1, first(mError))
+			how := vsched.Choose(3)
+			consume := func() (int, error) {
+				switch how {
+				case 0:
+					v, ref, err := e.rc.Wait(bg)
+					if ref != nil {
+						ref.Release()
+					}
+					return v, err
+				case 1:
+					v, rel, err := e.rc.Resolve(bg)
+					if rel != nil {
+						rel()
+					}
+					return v, err
+				}
+				got := 0
+				err := e.rc.Access(bg, func(_ context.Context, v int) error { got = v; return nil })
+				return got, err
+			}
+			if v, err := consume(); err != errResolve || v != 0 {
+				fail("C10.wrong-error", "first consumer: the resolver failed, got (%d,%v)", v, err)
+				return
+			}
+			vsched.Settle()
+			if v, err := consume(); err != nil || v != valOf(2) {
+				fail("C10.stale-value", "second consumer (after the first one got the resolver's error and left): got (%d,%v), want the value of a new resolver call (%d); resolver calls so far: %d", v, err, valOf(2), vsched.Ctr(rcCalls))
+			}
+			e.setContext(nil)
+			vsched.Settle()
+			e.finalRelease()
+		},
+	})
+	eng.Register(&eng.Scenario{
 		Name: "refcount-canceled-error", Props: []string{"C10"}, MustFinish: true, ObsNames: stdObs,
 		Doc:   "RefCount whose resolver fails with the error context.Canceled itself (its own context is live): Wait / Resolve / ResolveWithReleased / Access / WaitRefCountContainer (choice) with a live caller context return that error as such and promptly (no spinning, no parking), before or after the result is stored (choice)",
 		Quick: eng.Bounds{PB: 2}, Thorough: eng.Bounds{PB: 3},
